@@ -14,6 +14,7 @@ INST = {
 UNITS = {
     "drv": ("units/drv.rs", None),
     "final": ("units/final.rs", None),
+    "parse": ("units/parse.rs", None),
     "cmp": ("units/cmp.rs", None),
     "time": ("units/time.rs", None),
     "map.f64": ("units/map.rs", "f64"),
@@ -97,6 +98,12 @@ PLAN["C09"] = dict(
 )
 PLAN["C10"] = dict(
     verus=dict(quick=["drv", "cmp"], thorough=["drv", "cmp"]),
+    kani=dict(quick=[], thorough=[]),
+    level="proof",
+)
+
+PLAN["C18"] = dict(
+    verus=dict(quick=["parse"], thorough=["parse"]),
     kani=dict(quick=[], thorough=[]),
     level="proof",
 )
